@@ -19,14 +19,15 @@ package sweep
 //     non-decreasing fee rate; and the fee function of a live record sits at
 //     its ceiling from deadline-1 on.
 //
-//  3. TestVerifC18Regroup (end of file): one round of the real UtxoSweeper
-//     (updateSweeperInputs / sweepPendingInputs / sweep) over the real
-//     BudgetAggregator in front of the real TxPublisher, on generated
-//     populations of pending inputs some of which were already offered at a
-//     fee rate: the regrouped request never offers an input less than it was
-//     already offered (up to the request's ceiling), every transaction pays
-//     no more than the budgets attached to the inputs it spends and spends
-//     all inputs of its request.
+//  3. TestVerifC18Regroup (end of file): the real UtxoSweeper (block handler,
+//     handleBumpEvent and its handlers, monitorFeeBumpResult) over the real
+//     BudgetAggregator in a loop with the real TxPublisher, block after
+//     block, with faults injected at the wallet / mempool boundary, on
+//     generated populations of pending inputs some of which were already
+//     offered at a fee rate: across requests, rounds and blocks no input is
+//     offered less than it was already offered (up to the request's
+//     ceiling), every transaction pays no more than the budgets attached to
+//     the inputs it spends and spends all inputs of its request.
 
 import (
 	"errors"
@@ -34,6 +35,7 @@ import (
 	"sort"
 	"sync"
 	"testing"
+	"time"
 
 	"github.com/btcsuite/btcd/btcutil/v2"
 	"github.com/btcsuite/btcd/chainhash/v2"
@@ -1222,23 +1224,38 @@ func TestVerifC18Publisher(t *testing.T) {
 // ---------------------------------------------------------------------------
 // 3. Regroup monitor.
 //
-// TestVerifC18Regroup drives the real grouping path above the publisher: a
-// generated population of pending SweeperInputs (mixed budgets, deadlines,
-// Immediate, locktimes, exclusive groups, required outputs; some carrying
-// Params.StartingFeeRate as left behind by markInputsPublishFailed / the
-// mempool RBFInfo of an earlier attempt, some not) is put into a real
-// UtxoSweeper whose aggregator is the real BudgetAggregator and whose
-// Publisher is the real TxPublisher (behind a recording shim). The real
-// updateSweeperInputs / sweepPendingInputs / sweep build the BumpRequests,
-// the real TxPublisher builds the fee functions and the transactions, which a
-// recording wallet judges:
+// TestVerifC18Regroup drives the real sweeper <-> publisher loop over several
+// blocks: a generated population of pending SweeperInputs (mixed budgets,
+// deadlines, Immediate, locktimes, exclusive groups, required outputs; some
+// carrying Params.StartingFeeRate as left behind by markInputsPublishFailed /
+// the mempool RBFInfo of an earlier attempt, some arriving in later blocks) is
+// put into a real UtxoSweeper whose aggregator is the real BudgetAggregator
+// and whose Publisher is the real TxPublisher (behind a recording shim). Per
+// block, in lnd's consumer order: the sweeper's block handler
+// (updateSweeperInputs / sweepPendingInputs / sweep), then the publisher's
+// (processRecords); every BumpResult travels through the sweeper's own
+// monitorFeeBumpResult goroutine into bumpRespChan and is handled by the
+// real handleBumpEvent (TxPublished / TxFailed / TxReplaced / TxFatal /
+// TxUnknownSpend -> markInputsPublished / markInputsPublishFailed / ... and
+// the immediate retry of handleBumpEventTxUnknownSpend). Faults are injected
+// where production sees them: scripted answers of CheckMempoolAcceptance /
+// PublishTransaction (insufficient fee, min relay / mempool min fee not met,
+// mempool fee, missing inputs with one input spent by a third party or with
+// no spend at all, not implemented, generic error) and third-party spends
+// found by the publisher's per-block spend probe; initial tx creation of later
+// rounds fails by itself where budgets, values and sizes make it
+// (ErrTxNoOutput, ErrNotEnoughBudget, ErrNotEnoughInputs, ErrZeroFeeRateDelta,
+// ErrMaxPosition). A recording wallet judges:
 //
-//   regroup_feerate_monotone  for every input that was already offered at a
-//       rate r (its Params.StartingFeeRate), the fee function built for the
-//       request the input is regrouped into, and every transaction handed to
-//       the wallet that spends the input, offer no less than r - unless r is
-//       above the request's ceiling min(sum of its inputs' budgets / size,
-//       MaxFeeRate), in which case no less than that ceiling.
+//   regroup_feerate_monotone  for every input, the sequence of fee rates
+//       (fee function rate) of the transactions spending it that were handed
+//       to the wallet (testmempoolaccept / publish), across requests, rounds
+//       and blocks, starting from the rate the input had been offered at
+//       before (its generated Params.StartingFeeRate), never decreases -
+//       unless the previous rate is above the ceiling of the request
+//       min(sum of its inputs' budgets / size, MaxFeeRate), in which case it
+//       is no less than that ceiling. The same for the fee function the
+//       publisher builds for a fresh request.
 //   regroup_budget            every transaction handed to the wallet pays a
 //       fee (sum in - sum out) no larger than the sum of the budgets attached
 //       to the inputs it spends (looked up per outpoint in the generated
@@ -1260,6 +1277,7 @@ type verifC18RGIn struct {
 	Start     int64  `json:"start"` // sat/kw the input was last offered at
 	ViaFailed bool   `json:"via_publish_failed"`
 	PrevStart int64  `json:"start_before_that"` // >0: the failed attempt had itself started from this carried-over rate
+	Arrive    int    `json:"arrives_at_block"`  // 0: pending from the start; k: offered with the k-th later block
 }
 
 // verifC18OneSet is the input set of an earlier, failed sweep as far as the
@@ -1288,6 +1306,11 @@ type verifC18RGCase struct {
 	Inputs    []verifC18RGIn `json:"inputs"`
 	Utxos     []int64        `json:"wallet_utxos"`
 	ChangeTy  string         `json:"change"`
+	Steps     []int32        `json:"later_blocks"`
+	Mempool   []string       `json:"mempool_script"` // answer i of the request led by input k: [(5k+i) mod len]
+	Publish   []string       `json:"publish_script"`
+	SpendAt   int            `json:"third_party_spend_before_block"` // index into later_blocks, -1 never
+	SpendIn   int            `json:"third_party_spend_of_input"`
 }
 
 func verifC18GenRG(r *verifRng) verifC18RGCase {
@@ -1341,7 +1364,30 @@ func verifC18GenRG(r *verifRng) verifC18RGCase {
 		pool = append(pool, rate())
 	}
 
-	n := 2 + r.Intn(9)
+	// the later blocks: mostly every block, some skipped heights, then
+	// on to the deadlines that lie further ahead.
+	nSteps := 5 + r.Intn(9)
+	h := c.Height
+	for k := 0; k < nSteps; k++ {
+		if r.Chance(1, 6) {
+			h += 2 + int32(r.Intn(3))
+		} else {
+			h++
+		}
+		c.Steps = append(c.Steps, h)
+	}
+	far := append([]int32(nil), deadlines...)
+	sort.Slice(far, func(i, j int) bool { return far[i] < far[j] })
+	for _, d := range far {
+		for _, x := range []int32{d - 1, d} {
+			if x > h {
+				h = x
+				c.Steps = append(c.Steps, h)
+			}
+		}
+	}
+
+	n := 1 + r.Intn(9)
 	for k := 0; k < n; k++ {
 		var s verifC18RGIn
 		s.Value = verifC18Value(r)
@@ -1397,10 +1443,41 @@ func verifC18GenRG(r *verifRng) verifC18RGCase {
 		if s.ViaFailed && s.Start > 1 && r.Bool() {
 			s.PrevStart = 1 + int64(r.U64n(uint64(s.Start)))
 		}
+		if k > 0 && r.Chance(1, 5) {
+			s.Arrive = 1 + r.Intn(len(c.Steps))
+		}
 		c.Inputs = append(c.Inputs, s)
 	}
 	for k := r.Intn(4); k > 0; k-- {
 		c.Utxos = append(c.Utxos, 1000+int64(r.U64n(3000000)))
+	}
+
+	// what the mempool / the wallet answer.
+	mopts := []string{"insufficient", "insufficient", "insufficient", "minrelay", "mempoolmin", "mempoolfee",
+		"missing", "missing", "missing-orphan", "unimplemented", "other"}
+	mode := r.Intn(10) // 0,1: hostile; 2: quiet; else: mostly fine
+	for k := 24 + r.Intn(16); k > 0; k-- {
+		switch {
+		case mode <= 1 && r.Chance(3, 5):
+			c.Mempool = append(c.Mempool, []string{"insufficient", "insufficient", "mempoolfee", "minrelay"}[r.Intn(4)])
+		case mode <= 1 || mode == 2 || r.Chance(9, 10):
+			c.Mempool = append(c.Mempool, "ok")
+		default:
+			c.Mempool = append(c.Mempool, mopts[r.Intn(len(mopts))])
+		}
+	}
+	popts := []string{"insufficient", "mempoolfee", "other", "other"}
+	for k := 12 + r.Intn(12); k > 0; k-- {
+		if mode == 2 || r.Chance(6, 7) {
+			c.Publish = append(c.Publish, "ok")
+		} else {
+			c.Publish = append(c.Publish, popts[r.Intn(len(popts))])
+		}
+	}
+	c.SpendAt = -1
+	if r.Chance(1, 6) {
+		c.SpendAt = r.Intn(len(c.Steps))
+		c.SpendIn = r.Intn(len(c.Inputs))
 	}
 	return c
 }
@@ -1408,52 +1485,128 @@ func verifC18GenRG(r *verifRng) verifC18RGCase {
 // verifC18RGReq is what the monitor knows about one BumpRequest the sweeper
 // handed to the publisher.
 type verifC18RGReq struct {
-	req      *BumpRequest
-	members  []int // indices into the case's inputs
-	sumBud   int64
-	weight   int64 // model weight of the sweep tx with its change output
-	ceilLo   int64
-	ceil     int64
-	multi    bool
-	corner   bool
-	topup    bool
-	handed   int
-	ffJudged bool
-	id       int // smallest member: stable name of the request (creation order follows map iteration)
+	req     *BumpRequest
+	members []int // indices into the case's inputs
+	sumBud  int64
+	weight  int64 // model weight of the sweep tx with its change output
+	ceilLo  int64
+	ceil    int64
+	multi   bool
+	corner  bool
+	topup   bool
+	handed  int
+	height  int32
+	dead    bool
+	id      int // smallest member: stable name of the request (creation order follows map iteration)
+	sub     <-chan *BumpResult
+	out     chan *BumpResult
+	monGone bool // the sweeper's monitor goroutine of this request has returned
 }
 
 type verifC18RGHanded struct {
 	Via     string `json:"via"`
 	Height  int32  `json:"height"`
-	Req     int    `json:"request_of_input"`
+	Members []int  `json:"inputs"`
 	Fee     int64  `json:"fee"`
 	Weight  int64  `json:"weight"`
-	NIn     int    `json:"n_in"`
 	Nominal int64  `json:"fee_function_rate"`
+	Ceil    int64  `json:"ceiling"`
+	Answer  string `json:"answer"`
 }
+
+type verifC18RGEvent struct {
+	Height  int32  `json:"height"`
+	Event   string `json:"event"`
+	Members []int  `json:"inputs"`
+	FeeRate int64  `json:"fee_rate"`
+	Err     string `json:"err,omitempty"`
+}
+
+// verifC18Store is the sweeper's tx store, in memory.
+type verifC18Store struct {
+	mu  sync.Mutex
+	txs map[chainhash.Hash]*TxRecord
+}
+
+func (s *verifC18Store) IsOurTx(h chainhash.Hash) bool {
+	s.mu.Lock()
+	defer s.mu.Unlock()
+	_, ok := s.txs[h]
+	return ok
+}
+func (s *verifC18Store) StoreTx(tr *TxRecord) error {
+	s.mu.Lock()
+	defer s.mu.Unlock()
+	s.txs[tr.Txid] = tr
+	return nil
+}
+func (s *verifC18Store) ListSweeps() ([]chainhash.Hash, error) {
+	s.mu.Lock()
+	defer s.mu.Unlock()
+	var hs []chainhash.Hash
+	for h := range s.txs {
+		hs = append(hs, h)
+	}
+	return hs, nil
+}
+func (s *verifC18Store) GetTx(h chainhash.Hash) (*TxRecord, error) {
+	s.mu.Lock()
+	defer s.mu.Unlock()
+	tr, ok := s.txs[h]
+	if !ok {
+		return nil, ErrTxNotFound
+	}
+	return tr, nil
+}
+func (s *verifC18Store) DeleteTx(h chainhash.Hash) error {
+	s.mu.Lock()
+	defer s.mu.Unlock()
+	delete(s.txs, h)
+	return nil
+}
+
+var _ SweeperStore = (*verifC18Store)(nil)
 
 // verifC18RG is the state of one regroup case: it is the sweeper's Bumper
 // (a shim in front of the real TxPublisher) and, through the embedded
 // recording wallet, the Wallet of both.
 type verifC18RG struct {
-	*verifC18Wallet // boring Wallet methods + utxos + vals
+	*verifC18Wallet // boring Wallet methods + utxos + vals + mu + height
 
-	vc *verifCtx
-	c  *verifC18RGCase
-	tp *TxPublisher
+	t        *testing.T
+	vc       *verifCtx
+	c        *verifC18RGCase
+	tp       *TxPublisher
+	s        *UtxoSweeper
+	notifier *verifC18Notifier
 
-	byOp   map[wire.OutPoint]int // outpoint -> index of the generated input
-	last   []int64               // per input: the rate it was last offered at
-	reqs   []*verifC18RGReq
-	reqOf  map[wire.OutPoint]int // spec outpoint -> request index
-	subs   []<-chan *BumpResult
-	log    []verifC18RGHanded
-	events map[string]int
+	ops      []wire.OutPoint       // per generated input
+	byOp     map[wire.OutPoint]int // outpoint -> index of the generated input
+	last     []int64               // per input: the rate it was last offered at
+	lastKind []string              // ... and how: carried / mempool-test / publish-refused / published
+	zeroed   []bool                // per input: a TxFailed without fee rate wiped its carried rate since
+	lowered  []bool                // per input: a failed result reported a retry rate below the rate already offered
+	mpCalls  []int
+	pubCalls []int
+	reqs     []*verifC18RGReq
+	reqOf    map[wire.OutPoint]int // spec outpoint -> latest request index
+	log      []verifC18RGHanded
+	evlog    []verifC18RGEvent
+	events   map[string]int
+	resetCls int
 }
+
+// verifC18ResetClassCap bounds how often one process reports each of the
+// classes "carried rate wiped / lowered by a failed result" (the rest is
+// counted, by kind of the previous offer).
+const verifC18ResetClassCap = 3
+
+var verifC18ClassSeen = map[string]int{}
 
 func (g *verifC18RG) witness() any {
 	type rq struct {
 		Members  []int  `json:"members"`
+		Height   int32  `json:"height"`
 		Budget   int64  `json:"budget"`
 		SumBud   int64  `json:"sum_input_budgets"`
 		Deadline int32  `json:"deadline"`
@@ -1465,12 +1618,17 @@ func (g *verifC18RG) witness() any {
 	}
 	var rs []rq
 	qs := append([]*verifC18RGReq(nil), g.reqs...)
-	sort.Slice(qs, func(i, j int) bool { return qs[i].id < qs[j].id })
+	sort.SliceStable(qs, func(i, j int) bool {
+		if qs[i].height != qs[j].height {
+			return qs[i].height < qs[j].height
+		}
+		return qs[i].id < qs[j].id
+	})
 	for _, q := range qs {
-		rs = append(rs, rq{q.members, int64(q.req.Budget), q.sumBud, q.req.DeadlineHeight,
+		rs = append(rs, rq{q.members, q.height, int64(q.req.Budget), q.sumBud, q.req.DeadlineHeight,
 			fmt.Sprintf("%v", q.req.StartingFeeRate), q.weight, q.ceil, q.req.Immediate, len(q.req.Inputs)})
 	}
-	return map[string]any{"case": g.c, "requests": rs, "handed": g.log}
+	return map[string]any{"case": g.c, "requests": rs, "handed": g.log, "results": g.evlog}
 }
 
 // verifC18ModelWeight is the BIP-141 weight of a sweep transaction spending
@@ -1516,19 +1674,52 @@ func (g *verifC18RG) judgeOffer(qi int, rate int64, what string) {
 			continue
 		}
 		g.vc.Count("oracle_regroup_monotone_evals", 1)
+		if g.lastKind[m] != "carried" {
+			g.vc.Count("oracle_regroup_monotone_over_time_evals", 1)
+		}
 		need, cls := prev, ""
 		if prev > q.ceilLo {
 			need, cls = q.ceilLo, "+last-offered-above-ceiling"
 			g.vc.Count("regroup_monotone_ceiling_corner_evals", 1)
 		}
-		if rate < need {
-			g.vc.Violation("regroup_feerate_monotone", what+"-below-rate-already-offered-for-an-input"+cls,
-				fmt.Sprintf("request of inputs %v (deadline %d, StartingFeeRate %v): %s offers %d sat/kw, input %d was already offered at %d sat/kw "+
-					"(ceiling of the request: min(sum of budgets %d *1000/ weight %d, max %d) = %d)",
-					q.members, q.req.DeadlineHeight, q.req.StartingFeeRate, what, rate, m, prev,
-					q.sumBud, q.weight, q.req.MaxFeeRate, q.ceil), g.witness())
-			return
+		if rate >= need {
+			continue
 		}
+		key := what + "-below-rate-already-offered-for-an-input" + cls
+		if g.lastKind[m] != "carried" {
+			key += "+prev=" + g.lastKind[m]
+		}
+		if g.lowered[m] && !g.zeroed[m] {
+			// fingerprint class: a failed attempt (of a grouping
+			// with a lower ceiling) reported a retry rate below
+			// the rate the input carried, and replaced it.
+			key += "+carried-rate-lowered-by-failed-result"
+			g.vc.Count("regroup_decrease_after_failed_result_with_lower_rate", 1)
+			g.vc.Count("regroup_decrease_lowered_prev_"+g.lastKind[m], 1)
+			g.resetCls++
+			verifC18ClassSeen["lowered"]++
+			if verifC18ClassSeen["lowered"] > verifC18ResetClassCap {
+				return
+			}
+		}
+		if g.zeroed[m] {
+			// fingerprint class: the rate the input carried was
+			// overwritten by a TxFailed result without fee rate.
+			key += "+carried-rate-wiped-by-txfailed-without-fee-rate"
+			g.vc.Count("regroup_decrease_after_txfailed_without_fee_rate", 1)
+			g.vc.Count("regroup_decrease_wiped_prev_"+g.lastKind[m], 1)
+			g.resetCls++
+			verifC18ClassSeen["wiped"]++
+			if verifC18ClassSeen["wiped"] > verifC18ResetClassCap {
+				return
+			}
+		}
+		g.vc.Violation("regroup_feerate_monotone", key,
+			fmt.Sprintf("height %d: request of inputs %v (deadline %d, StartingFeeRate %v): %s offers %d sat/kw, input %d was already offered at %d sat/kw (%s) "+
+				"(ceiling of the request: min(sum of budgets %d *1000/ weight %d, max %d) = %d)",
+				g.height, q.members, q.req.DeadlineHeight, q.req.StartingFeeRate, what, rate, m, prev, g.lastKind[m],
+				q.sumBud, q.weight, q.req.MaxFeeRate, q.ceil), g.witness())
+		return
 	}
 }
 
@@ -1537,12 +1728,17 @@ func (g *verifC18RG) judgeOffer(qi int, rate int64, what string) {
 // for it, and forwards it to the real TxPublisher.
 func (g *verifC18RG) Broadcast(req *BumpRequest) <-chan *BumpResult {
 	vc := g.vc
-	q := &verifC18RGReq{req: req}
+	q := &verifC18RGReq{req: req, height: g.s.currentHeight, out: make(chan *BumpResult, 16)}
 	qi := len(g.reqs)
 	g.reqs = append(g.reqs, q)
 	vc.Count("regroup_requests", 1)
+	if len(g.evlog) > 0 || q.height > g.c.Height {
+		vc.Count("regroup_requests_in_later_rounds", 1)
+	}
 
+	g.mu.Lock()
 	starts := map[int64]bool{}
+	retried := false
 	for _, in := range req.Inputs {
 		m, ok := g.byOp[in.OutPoint()]
 		if !ok {
@@ -1550,7 +1746,10 @@ func (g *verifC18RG) Broadcast(req *BumpRequest) <-chan *BumpResult {
 			continue
 		}
 		if prevQ, dup := g.reqOf[in.OutPoint()]; dup {
-			vc.Diag("regroup_input_in_two_requests", fmt.Sprintf("input %d in requests %d and %d", m, prevQ, qi))
+			if !g.reqs[prevQ].dead {
+				vc.Diag("regroup_input_in_two_live_requests", fmt.Sprintf("input %d", m))
+			}
+			retried = true
 		}
 		g.reqOf[in.OutPoint()] = qi
 		q.members = append(q.members, m)
@@ -1569,6 +1768,9 @@ func (g *verifC18RG) Broadcast(req *BumpRequest) <-chan *BumpResult {
 	if q.multi {
 		vc.Count("regroup_requests_mixed_last_offered", 1)
 	}
+	if retried {
+		vc.Count("regroup_requests_with_retried_input", 1)
+	}
 	if len(q.members) > 1 {
 		vc.Count("regroup_requests_multi_input", 1)
 	}
@@ -1578,7 +1780,7 @@ func (g *verifC18RG) Broadcast(req *BumpRequest) <-chan *BumpResult {
 	maxKW := g.c.MaxVB * 250
 	w, ok := verifC18ModelWeight(req.Inputs, req.DeliveryAddress.DeliveryAddress)
 	if !ok {
-		vc.Diag("regroup_weight_model_unsupported_input", fmt.Sprintf("request %d", qi))
+		vc.Diag("regroup_weight_model_unsupported_input", fmt.Sprintf("request of %v", q.members))
 		w = 1
 	}
 	q.weight = w
@@ -1608,6 +1810,7 @@ func (g *verifC18RG) Broadcast(req *BumpRequest) <-chan *BumpResult {
 		vc.Diag("regroup_request_max_fee_rate_differs_from_config",
 			fmt.Sprintf("request %d, configured %d", req.MaxFeeRate, maxKW))
 	}
+	g.mu.Unlock()
 
 	// The fee function as the publisher builds it for this request.
 	if ok {
@@ -1616,48 +1819,160 @@ func (g *verifC18RG) Broadcast(req *BumpRequest) <-chan *BumpResult {
 		if err != nil || f == nil {
 			vc.Count("regroup_fee_function_errors", 1)
 		} else {
-			q.ffJudged = true
+			g.mu.Lock()
 			g.judgeOffer(qi, int64(f.FeeRate()), "fee-function")
+			g.mu.Unlock()
 		}
 	}
-	sub := g.tp.Broadcast(req)
-	g.subs = append(g.subs, sub)
-	g.drain()
+	q.sub = g.tp.Broadcast(req)
 
-	// the sweeper's monitor goroutine gets a channel of its own: results
-	// are consumed synchronously by the monitor.
-	return make(chan *BumpResult)
+	// the sweeper's monitorFeeBumpResult goroutine reads q.out, which the
+	// monitor feeds from the publisher's channel (see pump).
+	return q.out
 }
 
-func (g *verifC18RG) drain() {
-	for _, sub := range g.subs {
-		for more := true; more; {
+// forward moves the publisher's pending results to the sweeper's monitor
+// goroutines and returns how many of them will arrive in bumpRespChan.
+func (g *verifC18RG) forward() int {
+	n := 0
+	for _, q := range g.reqs {
+		for more := true; more && q.sub != nil; {
 			select {
-			case res, ok := <-sub:
+			case res, ok := <-q.sub:
 				if !ok {
 					more = false
 					break
 				}
 				g.events[res.Event.String()]++
+				if q.monGone {
+					g.vc.Diag("regroup_result_after_monitor_returned", res.Event.String())
+					break
+				}
+				q.out <- res
+				if res.Validate() != nil {
+					// dropped by monitorFeeBumpResult.
+					g.vc.Diag("regroup_invalid_bump_result", res.String())
+					break
+				}
+				n++
+				if res.Event == TxFailed || res.Event == TxConfirmed {
+					q.monGone = true
+				}
 			default:
 				more = false
 			}
 		}
 	}
+	return n
 }
 
-func (g *verifC18RG) judgeTx(via string, tx *wire.MsgTx) {
-	vc := g.vc
-	qi := -1
-	for _, in := range tx.TxIn {
-		if k, ok := g.reqOf[in.PreviousOutPoint]; ok {
-			qi = k
-			break
+// pump delivers the publisher's results to the sweeper the way its collector
+// does: through bumpRespChan into handleBumpEvent, until nothing moves.
+func (g *verifC18RG) pump() {
+	for iter := 0; ; iter++ {
+		n := g.forward()
+		if n == 0 {
+			return
+		}
+		if iter >= 24 {
+			g.vc.Count("regroup_pump_cutoffs", 1)
+			return
+		}
+		resps := make([]*bumpResp, 0, n)
+		for len(resps) < n {
+			select {
+			case resp := <-g.s.bumpRespChan:
+				resps = append(resps, resp)
+			case <-time.After(120 * time.Second):
+				g.t.Fatalf("verif: watchdog: %d of %d bump results reached the sweeper", len(resps), n)
+			}
+		}
+		lead := func(resp *bumpResp) int {
+			id := 1 << 30
+			for _, in := range resp.set.Inputs() {
+				if m, ok := g.byOp[in.OutPoint()]; ok && m < id {
+					id = m
+				}
+			}
+			return id
+		}
+		sort.SliceStable(resps, func(i, j int) bool { return lead(resps[i]) < lead(resps[j]) })
+		for _, resp := range resps {
+			g.observe(resp)
+			if err := g.s.handleBumpEvent(resp); err != nil {
+				g.vc.Count("regroup_handle_bump_event_errors", 1)
+				msg := err.Error()
+				if len(msg) > 40 {
+					msg = msg[:40]
+				}
+				g.vc.Diag("regroup_handle_bump_event_error", resp.result.Event.String()+": "+msg)
+			}
 		}
 	}
+}
+
+// observe notes a result on its way into the sweeper.
+func (g *verifC18RG) observe(resp *bumpResp) {
+	g.mu.Lock()
+	defer g.mu.Unlock()
+	r := resp.result
+	var members []int
+	for _, in := range resp.set.Inputs() {
+		m, ok := g.byOp[in.OutPoint()]
+		if !ok {
+			continue
+		}
+		members = append(members, m)
+		if qi, ok := g.reqOf[in.OutPoint()]; ok && (r.Event == TxFailed || r.Event == TxFatal || r.Event == TxUnknownSpend) {
+			g.reqs[qi].dead = true
+		}
+		if r.Event == TxFailed && r.FeeRate == 0 && g.last[m] > 0 {
+			g.zeroed[m] = true
+		} else if (r.Event == TxFailed || r.Event == TxUnknownSpend) && int64(r.FeeRate) < g.last[m] {
+			g.lowered[m] = true
+		}
+	}
+	g.vc.Count("regroup_results_"+r.Event.String(), 1)
+	if r.Event == TxFailed && r.FeeRate == 0 {
+		g.vc.Count("regroup_results_TxFailed_without_fee_rate", 1)
+	}
+	ev := verifC18RGEvent{Height: g.height, Event: r.Event.String(), Members: members, FeeRate: int64(r.FeeRate)}
+	if r.Err != nil {
+		ev.Err = r.Err.Error()
+		if len(ev.Err) > 80 {
+			ev.Err = ev.Err[:80]
+		}
+	}
+	g.evlog = append(g.evlog, ev)
+}
+
+// answer picks the scripted answer for a transaction led by input lead.
+func verifC18Answer(script []string, lead int, calls []int) string {
+	if lead < 0 || len(script) == 0 {
+		return "ok"
+	}
+	k := script[(5*lead+calls[lead])%len(script)]
+	calls[lead]++
+	return k
+}
+
+func (g *verifC18RG) judgeTx(via string, tx *wire.MsgTx, script []string, calls []int) error {
+	vc := g.vc
+	qi, lead := -1, -1
+	for _, in := range tx.TxIn {
+		if m, ok := g.byOp[in.PreviousOutPoint]; ok {
+			if lead < 0 || m < lead {
+				lead = m
+			}
+			if k, ok := g.reqOf[in.PreviousOutPoint]; ok && k > qi {
+				qi = k
+			}
+		}
+	}
+	answer := verifC18Answer(script, lead, calls)
 	if qi < 0 {
 		vc.Diag("regroup_tx_without_population_input", via)
-		return
+		return nil
 	}
 	q := g.reqs[qi]
 	q.handed++
@@ -1666,6 +1981,7 @@ func (g *verifC18RG) judgeTx(via string, tx *wire.MsgTx) {
 	seen := map[wire.OutPoint]int{}
 	var sumIn, sumBud int64
 	unknown := false
+	victim := -1
 	for _, in := range tx.TxIn {
 		seen[in.PreviousOutPoint]++
 		v, ok := g.vals[in.PreviousOutPoint]
@@ -1675,6 +1991,9 @@ func (g *verifC18RG) judgeTx(via string, tx *wire.MsgTx) {
 		sumIn += v
 		if m, ok := g.byOp[in.PreviousOutPoint]; ok && seen[in.PreviousOutPoint] == 1 {
 			sumBud += g.c.Inputs[m].Budget
+			if m > victim {
+				victim = m
+			}
 		}
 	}
 	missing := 0
@@ -1687,7 +2006,7 @@ func (g *verifC18RG) judgeTx(via string, tx *wire.MsgTx) {
 		vc.Violation("regroup_spends_all_inputs", fmt.Sprintf("missing=%d-unknown=%v", missing, unknown),
 			fmt.Sprintf("%s: tx spends %d inputs, request of inputs %v has %d (missing %d, unknown %v)", via,
 				len(tx.TxIn), q.members, len(q.req.Inputs), missing, unknown), g.witness())
-		return
+		return nil
 	}
 	var sumOut int64
 	hasChange := false
@@ -1706,8 +2025,11 @@ func (g *verifC18RG) judgeTx(via string, tx *wire.MsgTx) {
 		}
 		return true
 	})
-	g.log = append(g.log, verifC18RGHanded{Via: via, Height: g.height, Req: q.id, Fee: fee, Weight: weight,
-		NIn: len(tx.TxIn), Nominal: nominal})
+	g.log = append(g.log, verifC18RGHanded{Via: via, Height: g.height, Members: q.members, Fee: fee, Weight: weight,
+		Nominal: nominal, Ceil: q.ceil, Answer: answer})
+	if q.height > g.c.Height {
+		vc.Count("regroup_txs_of_later_rounds", 1)
+	}
 
 	// calibration of the weight model behind the ceiling (diagnostic).
 	wWith := weight
@@ -1732,30 +2054,55 @@ func (g *verifC18RG) judgeTx(via string, tx *wire.MsgTx) {
 	// offered rate never below what an input was already offered at.
 	if nominal >= 0 {
 		g.judgeOffer(qi, nominal, "tx")
+		kind := "mempool-test"
 		if via == "publish" {
-			for _, m := range q.members {
-				if nominal > g.last[m] {
-					g.last[m] = nominal
-				}
+			kind = "published"
+			if answer != "ok" {
+				kind = "publish-refused"
 			}
+		}
+		for _, m := range q.members {
+			g.last[m], g.lastKind[m] = nominal, kind
+			g.zeroed[m], g.lowered[m] = false, false
 		}
 	} else {
 		vc.Diag("regroup_tx_without_fee_function", via)
 	}
+
+	vc.Count("regroup_answers_"+via+"_"+answer, 1)
+	switch answer {
+	case "missing":
+		// one input of the tx has been spent by somebody else.
+		if victim >= 0 {
+			g.thirdPartySpend(victim)
+		}
+		return chain.ErrMissingInputs
+	case "missing-orphan":
+		return chain.ErrMissingInputs
+	}
+	return g.scripted(answer)
+}
+
+// thirdPartySpend lets the chain notifier report a foreign spend of input k.
+func (g *verifC18RG) thirdPartySpend(k int) {
+	sp := wire.NewMsgTx(2)
+	sp.AddTxIn(&wire.TxIn{PreviousOutPoint: g.ops[k]})
+	sp.AddTxOut(&wire.TxOut{Value: 1000, PkScript: append([]byte{0x00, 0x14}, make([]byte, 20)...)})
+	g.notifier.mu.Lock()
+	g.notifier.spent[g.ops[k]] = sp
+	g.notifier.mu.Unlock()
 }
 
 func (g *verifC18RG) CheckMempoolAcceptance(tx *wire.MsgTx) error {
 	g.mu.Lock()
 	defer g.mu.Unlock()
-	g.judgeTx("testmempoolaccept", tx)
-	return nil
+	return g.judgeTx("testmempoolaccept", tx, g.c.Mempool, g.mpCalls)
 }
 
 func (g *verifC18RG) PublishTransaction(tx *wire.MsgTx, _ string) error {
 	g.mu.Lock()
 	defer g.mu.Unlock()
-	g.judgeTx("publish", tx)
-	return nil
+	return g.judgeTx("publish", tx, g.c.Publish, g.pubCalls)
 }
 
 var (
@@ -1766,7 +2113,7 @@ var (
 func verifC18RunRG(t *testing.T, vc *verifCtx, r *verifRng, c *verifC18RGCase) {
 	g := &verifC18RG{
 		verifC18Wallet: &verifC18Wallet{vc: vc, vals: map[wire.OutPoint]int64{}, height: c.Height},
-		vc:             vc, c: c, byOp: map[wire.OutPoint]int{}, reqOf: map[wire.OutPoint]int{},
+		t:              t, vc: vc, c: c, byOp: map[wire.OutPoint]int{}, reqOf: map[wire.OutPoint]int{},
 		events: map[string]int{},
 	}
 	for _, v := range c.Utxos {
@@ -1783,6 +2130,7 @@ func verifC18RunRG(t *testing.T, vc *verifCtx, r *verifRng, c *verifC18RGCase) {
 		g.vals[op] = v
 	}
 	notifier := &verifC18Notifier{spent: map[wire.OutPoint]*wire.MsgTx{}}
+	g.notifier = notifier
 	est := c.Est
 	tp := NewTxPublisher(TxPublisherConfig{
 		Signer: &verifC18Signer{}, Wallet: g, Estimator: &est, Notifier: notifier,
@@ -1799,6 +2147,7 @@ func verifC18RunRG(t *testing.T, vc *verifCtx, r *verifRng, c *verifC18RGCase) {
 		FeeEstimator:         &est,
 		Wallet:               g,
 		Notifier:             notifier,
+		Store:                &verifC18Store{txs: map[chainhash.Hash]*TxRecord{}},
 		Signer:               &verifC18Signer{},
 		MaxInputsPerTx:       c.MaxInputs,
 		MaxFeeRate:           chainfee.SatPerVByte(c.MaxVB),
@@ -1807,10 +2156,12 @@ func verifC18RunRG(t *testing.T, vc *verifCtx, r *verifRng, c *verifC18RGCase) {
 		NoDeadlineConfTarget: 1008,
 	})
 	s.currentHeight = c.Height
+	g.s = s
 
 	// the pending inputs, as handleNewInput / markInputsPublishFailed
 	// leave them.
 	withStart := 0
+	pending := make([]*SweeperInput, len(c.Inputs))
 	for k, sp := range c.Inputs {
 		op := wire.OutPoint{Index: uint32(r.Intn(4))}
 		copy(op.Hash[:], r.Bytes(32))
@@ -1821,7 +2172,13 @@ func verifC18RunRG(t *testing.T, vc *verifCtx, r *verifRng, c *verifC18RGCase) {
 		}
 		g.vals[op] = sp.Value
 		g.byOp[op] = k
+		g.ops = append(g.ops, op)
 		g.last = append(g.last, 0)
+		g.lastKind = append(g.lastKind, "carried")
+		g.zeroed = append(g.zeroed, false)
+		g.lowered = append(g.lowered, false)
+		g.mpCalls = append(g.mpCalls, 0)
+		g.pubCalls = append(g.pubCalls, 0)
 		pi := &SweeperInput{Input: inp, state: Init, DeadlineHeight: sp.Deadline,
 			params: Params{Budget: btcutil.Amount(sp.Budget), Immediate: sp.Immediate}}
 		if !sp.NoDLParam {
@@ -1831,93 +2188,101 @@ func verifC18RunRG(t *testing.T, vc *verifCtx, r *verifRng, c *verifC18RGCase) {
 			grp := uint64(k + 1)
 			pi.params.ExclusiveGroup = &grp
 		}
-		s.inputs[op] = pi
-		if sp.HasStart {
-			g.last[k] = sp.Start
-			if sp.Start > 0 {
-				withStart++
+		pending[k] = pi
+	}
+	offer := func(k int) {
+		sp, pi := c.Inputs[k], pending[k]
+		s.inputs[g.ops[k]] = pi
+		vc.Count("regroup_inputs", 1)
+		if !sp.HasStart {
+			return
+		}
+		g.last[k] = sp.Start
+		if sp.Start > 0 {
+			withStart++
+		}
+		pi.publishAttempts = 1
+		if sp.ViaFailed {
+			// the input was part of a sweep whose publish failed
+			// at this rate: the sweeper's own handler of the
+			// TxFailed result records it.
+			pi.state = PendingPublish
+			if sp.PrevStart > 0 {
+				pi.params.StartingFeeRate = fn.Some(chainfee.SatPerKWeight(sp.PrevStart))
+				pi.publishAttempts = 2
 			}
-			pi.publishAttempts = 1
-			if sp.ViaFailed {
-				// the input was part of a sweep whose publish
-				// failed at this rate: the sweeper's own handler
-				// of the TxFailed result records it.
-				pi.state = PendingPublish
-				if sp.PrevStart > 0 {
-					pi.params.StartingFeeRate = fn.Some(chainfee.SatPerKWeight(sp.PrevStart))
-					pi.publishAttempts = 2
-				}
-				s.markInputsPublishFailed(&verifC18OneSet{in: inp}, chainfee.SatPerKWeight(sp.Start))
-				vc.Count("regroup_inputs_marked_publish_failed", 1)
-			} else {
-				// mempool RBFInfo of an earlier sweep.
-				pi.params.StartingFeeRate = fn.Some(chainfee.SatPerKWeight(sp.Start))
-			}
+			s.markInputsPublishFailed(&verifC18OneSet{in: pi.Input}, chainfee.SatPerKWeight(sp.Start))
+			vc.Count("regroup_inputs_marked_publish_failed", 1)
+		} else {
+			// mempool RBFInfo of an earlier sweep.
+			pi.params.StartingFeeRate = fn.Some(chainfee.SatPerKWeight(sp.Start))
 		}
 	}
-	vc.Count("regroup_inputs", int64(len(c.Inputs)))
-	vc.Count("regroup_inputs_already_offered", int64(withStart))
 
-	// One sweeper round at the current height: the real retry path of
-	// the sweeper's main loop.
-	s.sweepPendingInputs(s.updateSweeperInputs())
-	step := func(h int32) {
+	// One block: lnd's consumer order is sweeper, then publisher; results
+	// reach the sweeper's collector afterwards.
+	block := func(h int32, idx int) {
 		g.mu.Lock()
 		g.height = h
 		g.mu.Unlock()
+		for k, sp := range c.Inputs {
+			if sp.Arrive == idx {
+				offer(k)
+			}
+		}
+		s.currentHeight = h
+		s.sweepPendingInputs(s.updateSweeperInputs())
+		g.pump()
 		tp.currentHeight.Store(h)
 		tp.processRecords()
 		tp.wg.Wait()
-		g.drain()
+		g.pump()
 		vc.Count("regroup_blocks", 1)
 	}
-	// non-immediate requests are published with the block.
-	step(c.Height)
-
-	// then on to one block before each deadline and to the deadline: the
-	// budget clause is judged on transactions at their ceiling.
-	var hs []int32
-	for _, q := range g.reqs {
-		d := q.req.DeadlineHeight
-		for _, h := range []int32{c.Height + (d-c.Height)/2, d - 1, d} {
-			if h > c.Height {
-				hs = append(hs, h)
-			}
+	block(c.Height, 0)
+	for i, h := range c.Steps {
+		if i == c.SpendAt {
+			g.thirdPartySpend(c.SpendIn)
+			vc.Count("regroup_block_time_third_party_spends", 1)
 		}
-	}
-	sort.Slice(hs, func(i, j int) bool { return hs[i] < hs[j] })
-	prev := c.Height
-	for _, h := range hs {
-		if h == prev {
-			continue
-		}
-		step(h)
-		prev = h
+		block(h, i+1)
 	}
 	close(s.quit)
 	s.wg.Wait()
 	close(tp.quit)
+	vc.Count("regroup_inputs_already_offered", int64(withStart))
 
 	// bookkeeping
-	swept := 0
-	multi, corner, topup, offered := false, false, false, 0
+	inReq := map[int]bool{}
+	multi, corner, topup, offered, later := false, false, false, 0, 0
 	for _, q := range g.reqs {
-		swept += len(q.members)
+		for _, m := range q.members {
+			inReq[m] = true
+		}
 		multi = multi || q.multi
 		corner = corner || q.corner
 		topup = topup || q.topup
 		if q.handed > 0 {
 			offered++
 		}
+		if q.height > c.Height {
+			later++
+		}
 	}
-	vc.Count("regroup_inputs_in_requests", int64(swept))
-	vc.Count("regroup_inputs_not_in_any_request", int64(len(c.Inputs)-swept))
+	vc.Count("regroup_inputs_in_requests", int64(len(inReq)))
+	vc.Count("regroup_inputs_not_in_any_request", int64(len(c.Inputs)-len(inReq)))
 	vc.Count("regroup_requests_with_tx", int64(offered))
 	if multi {
 		vc.Count("regroup_cases_mixed_last_offered", 1)
 	}
+	if later > 0 {
+		vc.Count("regroup_cases_with_later_round_requests", 1)
+	}
+	if g.resetCls > 0 {
+		vc.Count("regroup_cases_decrease_after_txfailed_without_fee_rate", 1)
+	}
 	if len(g.reqs) > 0 {
-		locks, excl, imm := 0, 0, 0
+		locks, excl, imm, arr := 0, 0, 0, 0
 		for _, sp := range c.Inputs {
 			if sp.Lock > 0 {
 				locks++
@@ -1928,17 +2293,22 @@ func verifC18RunRG(t *testing.T, vc *verifCtx, r *verifRng, c *verifC18RGCase) {
 			if sp.Immediate {
 				imm++
 			}
+			if sp.Arrive > 0 {
+				arr++
+			}
 		}
-		vc.Sig(fmt.Sprintf("rg|n%d|req%d|max%d|mixed%v|corner%v|top%v|lock%v|excl%v|imm%v|off%d|fail%d",
-			verifC18Bucket(int64(len(c.Inputs))), len(g.reqs), c.MaxInputs, multi, corner, topup,
-			locks > 0, excl > 0, imm > 0, verifC18Bucket(int64(offered)), g.events["Failed"]+g.events["Fatal"]))
+		vc.Sig(fmt.Sprintf("rg|n%d|req%d|later%d|max%d|mixed%v|corner%v|top%v|lock%v|excl%v|imm%v|arr%v|off%d|fail%d|fatal%d|unk%d|repl%d",
+			verifC18Bucket(int64(len(c.Inputs))), verifC18Bucket(int64(len(g.reqs))), verifC18Bucket(int64(later)), c.MaxInputs,
+			multi, corner, topup, locks > 0, excl > 0, imm > 0, arr > 0, verifC18Bucket(int64(offered)),
+			verifC18Bucket(int64(g.events["Failed"])), verifC18Bucket(int64(g.events["Fatal"])),
+			verifC18Bucket(int64(g.events["UnknownSpend"])), verifC18Bucket(int64(g.events["Replaced"]))))
 	}
 }
 
 func TestVerifC18Regroup(t *testing.T) {
 	vc := verifStart(t, "C18", "regroup")
 	defer vc.Finish()
-	total := vc.N(40000, 4000000)
+	total := vc.N(30000, 3000000)
 	for i := 0; i < total; i++ {
 		if !vc.Mine(i) {
 			continue
